@@ -16,7 +16,7 @@ LEVEL_TEXT = ("Real single-end runs with --info-file over generated option sets 
               "with the reported error count; quality fields split at the same coordinates.")
 LEVEL_NOTE = ("Trusted base: independent parser, unique ids, refmodel.revcomp; the hooked match list of the adapter stage (if the hook is "
               "missing the 'aligned stretch' clause is inconclusive). The sequence column of no-match rows is not judged. Paired-end data is "
-              "documented as unsupported by the info file and not generated.")
+              "documented as unsupported by the info file: in paired runs (with and without --pair-adapters, every action) only the rows of R1 are judged, against R1 as read from the input.")
 VARIANTS = {"quick": ["plain"], "thorough": ["plain"]}
 BUDGET_S = {"quick": 150, "thorough": 3000}
 FLOORS = {"quick": 2000, "thorough": 60000}
@@ -70,7 +70,7 @@ def gen_case(rng):
     if rng.random() < 0.2:
         post += ["-l", "20"]
     cores = rng.choice([1, 1, 1, 2])
-    feats = dict(maxlen=45, nruns=True, revcomp_some=revcomp, lower=rng.random() < 0.25, qual_profile=rng.choice(["decay", "mixed", "high", "decay"]), header="casava" if "--discard-casava" in filt else rng.choice(["plain", "comment", "casava"]))
+    feats = dict(maxlen=45, nruns=True, revcomp_some=revcomp, lower=rng.random() < 0.25, qual_profile=rng.choice(["decay", "mixed", "high", "decay", "full"]), header="casava" if "--discard-casava" in filt else rng.choice(["plain", "comment", "casava"]))
     recs, _ = G.gen_reads(rng, rng.randint(15, 45), False, ads, **feats)
     return dict(ads=ads, fmt=fmt, pre=pre, adopts=adopts, filt=filt, post=post, times=times, revcomp=revcomp, cores=cores, recs=recs)
 
@@ -262,8 +262,73 @@ def one_case(ctx, k):
         shutil.rmtree(d, ignore_errors=True)
 
 
+def paired_case(ctx, k):
+    """Paired-end runs: the info file describes R1 only (documented). Its rows must still locate the match in, and
+    reconstruct, R1 as it was read from the input - whatever is done to R2 and whichever action is used."""
+    rng = ctx.rng("c17p", k)
+    simple = ["a", "g", "a$", "g^"]
+    n_ad = rng.randint(1, 2)
+    ads1 = [G.gen_adapter(rng, i, kinds=simple, minlen=6) for i in range(n_ad)]
+    pair_adapters = rng.random() < 0.5
+    ads2 = [G.gen_adapter(rng, i, upper=True, prefix="bd", kinds=simple, minlen=6) for i in range(n_ad if pair_adapters else rng.randint(0, 2))]
+    action = rng.choice(["trim", "lowercase", "lowercase", "mask", "none", "retain"])
+    argv = [x for a in ads1 + ads2 for x in a["argv"]] + ["-e", "0.1", "-O", "4"] + (["--pair-adapters"] if pair_adapters else [])
+    if action != "trim":
+        argv += ["--action", action]
+    recs1, recs2 = G.gen_reads(rng, rng.randint(15, 40), True, ads1, ads2 or ads1, maxlen=40, lower=True, qual_profile=rng.choice(["full", "mixed", "high"]),
+                               header=rng.choice(["plain", "comment"]))
+    d = os.path.join(ctx.scratch, f"p{k}")
+    os.makedirs(d, exist_ok=True)
+    try:
+        inputs = climon.write_inputs(d, recs1, recs2)
+        argv += ["--info-file", "info.tsv", "-o", "o1.fq", "-p", "o2.fq"] + inputs
+        case = climon.case_record(argv, d, inputs)
+        case.update(k=k, kind="paired")
+        run = climon.run(d, argv, tag="main", trace=False)
+        ctx.count("paired_runs")
+        if run.rc != 0:
+            ctx.count("runs_failed")
+            return
+        with open(run.path("info.tsv")) as f:
+            rows = parse_info(f.read())
+        by_id = {}
+        for r in rows:
+            by_id.setdefault(fastx.rid(r[0]), []).append(r)
+        for name, s, q in recs1:
+            key = fastx.rid(name)
+            rws = by_id.get(key)
+            viol = lambda kind, text: ctx.violation(kind, f"{text}; argv={argv}", case, facts=dict(paired=True), klass=kind + "paired")
+            if not rws:
+                ctx.case(("norow", key))
+                viol("info-no-row", f"R1 of pair {key} has no row in the info file")
+                continue
+            mrows = [r for r in rws if len(r) > 1 and r[1] != "-1"]
+            ctx.case((" ".join(argv[:-6]), s, q) if mrows else None)
+            if len(rws) != 1:
+                viol("info-row-count", f"pair {key}: {len(rws)} rows for one round of single adapters")
+                continue
+            if not mrows:
+                continue
+            r = mrows[0]
+            if len(r) < 11:
+                viol("info-columns", f"pair {key}: match row has {len(r)} columns")
+                continue
+            start, end = int(r[2]), int(r[3])
+            if r[4] + r[5] + r[6] != s:
+                viol("info-concat", f"pair {key}: fields 5-7 give {r[4] + r[5] + r[6]!r}, R1 as read from the input is {s!r}")
+            elif r[5] != s[start:end]:
+                viol("info-coordinates", f"pair {key}: middle field {r[5]!r} is not [{start}:{end}] of {s!r}")
+            if r[8] + r[9] + r[10] != q or r[9] != q[start:end]:
+                viol("info-quals", f"pair {key}: quality fields {r[8]!r}+{r[9]!r}+{r[10]!r} do not split {q!r} at [{start}:{end}]")
+            ctx.count("paired_match_rows_checked")
+    finally:
+        shutil.rmtree(d, ignore_errors=True)
+
+
 def run_shard(ctx):
     climon.require_hooks(ctx)
+    for k in range(ctx.scale(10, 300)):
+        paired_case(ctx, ctx.shard * 100000 + 60000 + k)
     for k in range(ctx.scale(90, 3000)):
         if ctx.out_of_time():
             ctx.count("stopped_on_time_budget")
@@ -280,4 +345,7 @@ def verdict_hook(merged, tier):
 
 def replay(ctx, case):
     ctx.shard = case["k"] // 100000
+    if case.get("kind") == "paired":
+        paired_case(ctx, case["k"])
+        return
     one_case(ctx, case["k"])
